@@ -1,6 +1,8 @@
 ----------------------------- MODULE DispatchGen -----------------------------
 (* P1 + P2 for C07: enumerates families of three programs (p1 base, p2 optionally inheriting p1,
-   p3 = the object's program inheriting a sequence of the others) with function modifiers and
+   p3 = the object's program inheriting a sequence of the others) and of four programs (p1 base, p2 inheriting p1,
+   p3 an unrelated program, p4 = the object's program inheriting p2 and p3 in either order: code that is itself
+   inherited as a non-first inherit and calls '::') with function modifiers and
    inherit modifiers, and call histories over (origin, name).  P1: on every family the
    reference is well defined and the outcome of a call does not depend on the calls before it
    (a tautology of the specification, stated as an invariant over the enumerated histories),
@@ -26,6 +28,12 @@ GNext ==
           \E i3 \in Pick(Inh3(i2 # <<>>)) :
             fam' = <<Prog(<<>>, f1, g1), Prog(i2, f2, "absent"), Prog(i3, f3, "absent")>>
      /\ phase' = "calls" /\ hist' = <<>>
+  \/ /\ phase = "fam"
+     /\ \E f1 \in Pick(FMods \ {"absent"}), f2 \in Pick(FMods), fo \in Pick({"absent", ""}), f4 \in Pick({"absent", ""}),
+           m1 \in Pick(IMods), m2 \in Pick(IMods), m3 \in Pick(IMods), ord \in Pick({1, 2}) :
+          fam' = <<Prog(<<>>, f1, ""), Prog(<<[p |-> 1, mod |-> m1]>>, f2, "absent"), Prog(<<>>, fo, "absent"),
+                   Prog(IF ord = 1 THEN <<[p |-> 3, mod |-> m3], [p |-> 2, mod |-> m2]>> ELSE <<[p |-> 2, mod |-> m2], [p |-> 3, mod |-> m3]>>, f4, "absent")>>
+     /\ phase' = "calls" /\ hist' = <<>>
   \/ /\ phase = "calls" /\ Len(hist) < HistLen
      /\ \E c \in Pick(Calls) : hist' = Append(hist, c)
      /\ UNCHANGED <<fam, phase>>
@@ -33,8 +41,8 @@ GNext ==
 GSpec == GInit /\ [][GNext]_gvars
 Emit == (phase = "calls" /\ Len(hist) = HistLen) => PrintT(<<"@@B", ToJson([family |-> fam, calls |-> hist])>>)
 HiddenNeverRuns == phase = "calls" =>
-  \A n \in {"f", "g"} : LET r == D!Res(fam, 3, n) IN
+  \A n \in {"f", "g"} : LET r == D!Res(fam, Len(fam), n) IN
      (r.found /\ D!Hidden(r.mods)) => D!Outcome(fam, "call_other", n) = 0
 DriverAlwaysRuns == phase = "calls" =>
-  \A n \in {"f", "g"} : LET r == D!Res(fam, 3, n) IN r.found => D!Outcome(fam, "driver", n) = r.prog
+  \A n \in {"f", "g"} : LET r == D!Res(fam, Len(fam), n) IN r.found => D!Outcome(fam, "driver", n) = r.prog
 =============================================================================
